@@ -130,7 +130,14 @@ class _Forbidden:
         self._fs.undecided("%s.%s is used but has no contract in vt.fsmodel" % (self._name, attr))
 
 
-_OS_PASS = {"sep", "pathsep", "linesep", "name", "fspath", "fsencode", "fsdecode", "getpid", "getcwd", "environ",
+class _Fd:
+    """descriptor returned by the os.open contract"""
+
+    def __init__(self, path, trunc, real=None):
+        self.path, self.trunc, self.real = path, trunc, real
+
+
+_OS_PASS = {"O_WRONLY", "O_CREAT", "O_TRUNC", "O_EXCL", "O_CLOEXEC", "O_RDWR", "O_RDONLY", "O_APPEND", "sep", "pathsep", "linesep", "name", "fspath", "fsencode", "fsdecode", "getpid", "getcwd", "environ",
             "getenv", "PathLike", "curdir", "pardir", "extsep", "devnull", "error", "strerror", "altsep"}
 _PATH_PASS = {"join", "dirname", "basename", "split", "splitext", "abspath", "normpath", "isabs", "sep", "relpath",
               "commonpath", "commonprefix", "expanduser", "normcase", "splitdrive"}
@@ -233,11 +240,36 @@ class _FS:
             fs._ev("fsync")
             fs._fsync(fd)
 
+        def s_os_open(path, flags, mode=0o777, *a, **kw):
+            """os.open for WRITING: O_WRONLY with any of O_CREAT / O_TRUNC / O_EXCL (/ O_CLOEXEC).  Without O_TRUNC an existing
+            file is overwritten from offset 0 and keeps whatever lies beyond what is written."""
+            if a or kw:
+                fs.undecided("os.open with dir_fd argument")
+            p = fs._path(path, "os.open")
+            known = _os.O_WRONLY | _os.O_CREAT | _os.O_TRUNC | _os.O_EXCL | getattr(_os, "O_CLOEXEC", 0)
+            if not (flags & _os.O_WRONLY) or (flags & ~known):
+                fs.undecided("os.open(%r, flags=%#o): only write-only opens with O_CREAT/O_TRUNC/O_EXCL have a contract" % (fs.base(p), flags))
+            exists = fs._exists(p)
+            if (flags & _os.O_EXCL) and (flags & _os.O_CREAT) and exists:
+                raise _model_error(FileExistsError(17, "File exists", p))
+            if not (flags & _os.O_CREAT) and not exists:
+                raise _model_error(FileNotFoundError(2, "No such file or directory", p))
+            trunc = bool(flags & _os.O_TRUNC)
+            fs._ev("open", fs.base(p), "w" if trunc else "overwrite")
+            return fs._os_open(p, flags, mode, trunc)
+
+        def s_fdopen(fd, mode="r", *a, **kw):
+            if not isinstance(fd, _Fd):
+                fs.undecided("os.fdopen on a descriptor that was not obtained through the os.open contract")
+            if fs._mode(mode) != "w":
+                fs.undecided("os.fdopen(fd, %r): only mode 'w' has a contract" % mode)
+            return fs._fdopen(fd, mode, a, kw)
+
         self.stub_open = s_open
         path_table = {"lexists": s_exists, "exists": s_exists, "isfile": s_exists}
         self.path_stub = _StubModule(fs, _os.path, path_table, _PATH_PASS)
         os_table = {"rename": s_rename, "replace": s_rename, "remove": s_remove, "unlink": s_remove,
-                    "fsync": s_fsync, "fdatasync": s_fsync, "path": self.path_stub}
+                    "fsync": s_fsync, "fdatasync": s_fsync, "path": self.path_stub, "open": s_os_open, "fdopen": s_fdopen}
         self.os_stub = _StubModule(fs, _os, os_table, _OS_PASS)
         json_table = {"dump": s_dump, "dumps": s_dumps, "load": s_read, "loads": s_read}
         self.json_stub = _StubModule(fs, _json, json_table, _JSON_PASS)
@@ -250,7 +282,7 @@ class _FS:
         ]
 
 
-STUBBED_NAMES = ["open", "json.dump", "json.dumps", "json.load(s) [undecided]", "os.rename", "os.replace", "os.remove",
+STUBBED_NAMES = ["open", "os.open (write-only, O_CREAT/O_TRUNC/O_EXCL)", "os.fdopen (mode w)", "json.dump", "json.dumps", "json.load(s) [undecided]", "os.rename", "os.replace", "os.remove",
                  "os.unlink", "os.fsync", "os.path.lexists", "os.path.exists", "os.path.isfile",
                  "every other attribute of os / os.path / json outside a pure pass-through list, and shutil / tempfile / "
                  "pathlib / io [undecided when touched]"]
@@ -299,6 +331,7 @@ def installed(module, fs):
 class GhostFile:
     def __init__(self, fs, path, base):
         self._fs, self._path, self._base = fs, path, tuple(base)
+        self._tail = ()   # what an open WITHOUT truncation leaves behind what is written (os.open contract)
         self._evpath = path   # events are labelled with the name the file was opened under (as the real twin does)
         self.pieces = []  # [token, written, total]
         self.closed = False
@@ -306,7 +339,7 @@ class GhostFile:
         self.mode = "w"
 
     def _content(self):
-        return self._base + tuple(p[0] for p in self.pieces)
+        return self._base + tuple(p[0] for p in self.pieces) + tuple(self._tail)
 
     def write(self, data):
         fs = self._fs
@@ -336,10 +369,10 @@ class GhostFile:
         self.closed = True
         fs._handles.pop(self._path, None)
         if not self.pieces:
-            rec = fs._before_open.get(self._path) if self._base else (PARTIAL, ())
+            rec = fs._before_open.get(self._path) if (self._base or self._tail) else (PARTIAL, ())
             if rec is None:
                 rec = (PARTIAL, ())
-        elif not self._base and len(self.pieces) == 1 and self.pieces[0][1] == self.pieces[0][2]:
+        elif not self._base and not self._tail and len(self.pieces) == 1 and self.pieces[0][1] == self.pieces[0][2]:
             rec = (COMPLETE, (self.pieces[0][0],))
         else:
             rec = (MIXED, self._content())
@@ -402,6 +435,26 @@ class GhostFS(_FS):
             self.files[p] = (PARTIAL, ())
         h = GhostFile(self, p, base)
         self._handles[p] = h
+        return h
+
+    def _os_open(self, p, flags, mode, trunc):
+        if p in self._handles:
+            self.undecided("os.open(%r) while another handle on it is open" % self.base(p))
+        kind, content = self.files.get(p, (ABSENT, ()))
+        if trunc or kind == ABSENT or not content:
+            self.files[p] = (PARTIAL, ())
+            tail = ()
+        else:
+            # not truncated: what is written replaces a prefix, the rest of the old content stays (contents are opaque, so their lengths
+            # are unconstrained: the old content may be longer than the new one)
+            tail = ("<tail of>",) + tuple(content)
+            self._before_open[p] = (kind, content)     # nothing changes until the first write
+        return _Fd(p, trunc, real=tail)
+
+    def _fdopen(self, fd, mode, a, kw):
+        h = GhostFile(self, fd.path, ())
+        h._tail = tuple(fd.real or ())
+        self._handles[fd.path] = h
         return h
 
     def _encode(self, obj, a, kw):
@@ -508,6 +561,15 @@ class RealFS(_FS):
     def _open(self, p, m, mode, a, kw):
         fh = builtins.open(p, mode, *a, **kw)
         h = RealFile(self, p, fh)
+        self._real_handles.append(fh)
+        return h
+
+    def _os_open(self, p, flags, mode, trunc):
+        return _Fd(p, trunc, real=_os.open(p, flags, mode))
+
+    def _fdopen(self, fd, mode, a, kw):
+        fh = _os.fdopen(fd.real, mode, *a, **kw)
+        h = RealFile(self, fd.path, fh)
         self._real_handles.append(fh)
         return h
 
